@@ -407,7 +407,7 @@ def run(chk, w):
             gated = False
             for (gd, truth) in rules.branch_conditions(cf, ci):
                 call, pol = rules.cond_call(cf, gd["cond"], truth)
-                if call is not None and pol and call.callee in P.functions and any(c.callee in R.adders for c in P.functions[call.callee].calls()):
+                if call is not None and pol and call.callee in P.functions and (call.callee in R.adders or any(c.callee in R.adders for c in P.functions[call.callee].calls())):
                     gated = True
             if gated:
                 chk.ok("C01-WMC", 1, {"caller": cf.name, "at": ci.loc()})
